@@ -100,7 +100,7 @@ def run(chk):
         a0 = round(rng.uniform(5.8, 6.6), 3)
         reid = rng.random() < 0.5
         units = rng.choice(["English", "SI"])
-        Ns = [10, 20, 40, 80] + ([160] if dist == "linear" and chk.tier == "thorough" else [])
+        Ns = [20, 40, 80] + ([160] if dist == "linear" and chk.tier == "thorough" else [])     # the property quantifies over N >= 20
         case = dict(kind="refine", dist=dist, RA=RA, a0=a0, reid=reid, units=units, Ns=Ns)
         try:
             rs = [measure(MX, RA, a0, N, dist, reid, 1.5, units, 4.0, 100.0) for N in Ns]
@@ -119,7 +119,7 @@ def run(chk):
         if dist == "linear":
             for k in ("CL", "CDi", "S"):
                 e = [abs(r[k]) for r in rs]
-                for i in range(1, len(e) - 1):
+                for i in range(0, len(e) - 1):
                     if e[i] > 5e-4:
                         ratio = e[i + 1] / e[i]
                         lo, hi = (0.2, 0.8) if k != "S" else (0.15, 0.8)      # first order: 1/2 (the area converges slightly faster, ~ N^-3/2)
@@ -130,7 +130,7 @@ def run(chk):
     chk.cov["worst_abs_error_percent"] = {k: round(100 * v, 4) for k, v in sorted(worst.items())}
     return chk.finish(rule="elliptic, planar, untwisted, unswept wings with linear sections: RA in [3,20], a0 in [5.5,6.9], alpha in [0.5,1.5] deg, both unit systems, Reid on/off; "
                            "cosine N in {20..40}: CL, CDi, CL_alpha, Cl_pbar, MAC, S within 0.5 %, span exact, circulation within 2 % of root value of the ellipse; "
-                           "N = 10,20,40,80(,160) for cosine / linear / explicit grids: errors non-increasing above the 0.2 % floor, linear spacing first order")
+                           "N = 20,40,80(,160) for cosine / linear / explicit grids: errors non-increasing above the 0.2 % floor, linear spacing first order")
 
 
 def replay(chk, path):
